@@ -376,9 +376,12 @@ def _enum_meta(maxn: int):
     hosts = (('Transaction', '2000-01-01 *\n', '    ', '    Assets:A  1 USD\n'),
              ('Posting', '2000-01-01 *\n    Assets:A  1 USD\n', '        ', '    Assets:B  2 USD\n'),
              ('Close', '2000-01-01 close Assets:A\n', '  ', ''))
-    layouts = [(keys, comments) for n in range(0, maxn + 1) for keys in itertools.product(('aa', 'bb'), repeat=n) for comments in (False, True)]
+    layouts = [(keys, comments) for n in range(0, maxn + 1) for keys in itertools.product(('aa', 'bb'), repeat=n) for comments in (None, 'indented', 'unindented')]
     for (cls, head, ind, tail), (keys, comments) in itertools.product(hosts, layouts):
-        body = ''.join((f'{ind}; c{i}\n' if comments else '') + f'{ind}{k}: "v{i}"\n' for i, k in enumerate(keys))
+        # an indented comment is claimed by the item below it; an unindented one stays a standalone entry of the raw list
+        cind = {None: None, 'indented': ind, 'unindented': ''}[comments]
+        # (the grammar takes an unindented comment only directly below the header line, so that mode has one comment, before the first item)
+        body = ''.join((f'{cind}; c{i}\n' if cind is not None and (cind or (i == 0 and cls != 'Posting')) else '') + f'{ind}{k}: "v{i}"\n' for i, k in enumerate(keys))
         dirs = [[['X', head + body + tail]]]
         for prop, key, name, prime_ in itertools.product(('meta', 'raw_meta'), ('aa', 'bb', 'cc'),
                                                          ('set', 'del', 'pop', 'pop_default', 'setdefault'), (True, False)):
